@@ -187,6 +187,23 @@ def _loop_back_and_proxy_first(ctx, rep, tier):
             ok = plain is not None and good_raise
             why = "the conflict test / raise of the loop-back check changed" if not ok else ""
     rep.check(ok, "C09.h", fq, "continuing byte that also starts the next iteration raises", f"{why}: `loop {{ /a(ab)*/; }}` is accepted and the second `a` of \"aa\" is silently taken as the start of \"ab\"")
+    # C09.m (F-124): leading to the same state is only "the same thing" when nothing else tells the two readings apart
+    rep.rule("C09.m", "loop-back edge: a continuing byte that also starts an iteration is waved through only if both readings are indistinguishable - same target state, no "
+                      "actions opening an iteration, the same actions on both transitions")
+    asg = [n for n in ast.walk(fn) if isinstance(n, ast.Assign) and ast.unparse(n.targets[0]) == "ambiguous" and "restart" in ast.unparse(n.value) and ".target" in ast.unparse(n.value)]
+    okm = False
+    for a in asg:
+        v = ast.unparse(a.value)
+        exempt = re.search(r"restart\.target != (\w+)\.target", v)
+        if exempt is None:
+            okm = True       # no exemption at all: every such byte is refused
+            continue
+        tvn = exempt.group(1)
+        okm = re.search(r"restart\.target != %s\.target or bool\(self\.loop_start_actions\) or list\(restart\.actions\) != list\(%s\.actions\)" % (tvn, tvn), v) is not None
+    rep.check(bool(asg) and okm, "C09.m", fq, "same-target exemption requires: no loop-start actions, equal action lists",
+              "a byte that continues the body's last statement and also starts the next iteration is accepted whenever both transitions lead to the same state (a body that is one regex "
+              "shares the state in its minimised machine) although the way back performs the actions that open an iteration: `loop { n = [n + 1]; /(ef)+/; }` counts one iteration "
+              "for \"efef\", the other reading two")
     # C09.i: proxy starts: (valid, to-else) partition
     rep.rule("C09.i", "DFProxyState.equivalent_on_values returns disjoint sets: a symbol that some frontier state handles validly is not also reported as always-error")
     eq = "DFProxyState.equivalent_on_values"
